@@ -341,6 +341,7 @@ impl Prop for C05 {
         // extrapolated value is not the value of the containing step's interpolant; such samples are
         // excluded from the value clause (documented absolute slack), and counted.
         let mut grid: Vec<f64> = Vec::new();
+        let mut grid_y: Vec<Vec<f64>> = Vec::new();
         {
             let mut g = d1.clone();
             g.t_eval = None;
@@ -349,6 +350,7 @@ impl Prop for C05 {
             if let (Verdict::Returned, Some(gs)) = (&gr.verdict, &gr.sol) {
                 if gs.naccpt == s.naccpt && gs.status == s.status {
                     grid = gs.t.clone();
+                    grid_y = gs.y.clone();
                 }
             }
         }
@@ -366,6 +368,29 @@ impl Prop for C05 {
             }
             false
         };
+        // independent of the dense output: a requested time that IS an accepted step end (bitwise)
+        // must carry the accepted state (the interpolant equals the state at both ends of its step)
+        if sc.first_step.is_none() || sc.method == Meth::RK4 {
+            let f = r.st.fmax;
+            for (i, &tau) in s.t.iter().enumerate() {
+                if let Some(k) = grid.iter().position(|g| g.to_bits() == tau.to_bits()) {
+                    if k == 0 || !all_finite(&s.y[i]) || !all_finite(&grid_y[k]) {
+                        continue;
+                    }
+                    if Some(tau) == extra || extrapolated(tau) {
+                        continue;
+                    }
+                    cov.bump("values.endpoint_cross_checks");
+                    let sn = norm_inf(&s.y[i]).max(norm_inf(&grid_y[k]));
+                    let tol = tau_i(sc.method, sn.max(sc.span().min(1.0) * f), sc.xscale().max(tau.abs()), f, sc.min_atol()) + 4e-12 * f;
+                    let d = max_abs_diff(&s.y[i], &grid_y[k]);
+                    if d > tol {
+                        v.push(viol(P, "value_at_step_end", format!("requested time {:e} is an accepted step end; reported value {:?} but the accepted state there is {:?} (diff {:e} > {:e})", tau, s.y[i], grid_y[k], d, tol)));
+                        break;
+                    }
+                }
+            }
+        }
         // values: the interpolant of the same run
         if let Some((a, b)) = s.sol_span() {
             let (lo, hi) = (a.min(b), a.max(b));
